@@ -1,15 +1,22 @@
-(* C17 - the checker accepts every generated program (vm_compute on the generated terms), and what
-   that means for each of them (corollaries of Sound.pure_sound).
+(* C17 - the checker accepts every generated program (vm_compute on the generated terms, in the
+   eight files gen/Shard<k>.v so that they are evaluated in parallel), and what that means for each
+   of them (corollaries of Sound.pure_sound).
 
    gen/Progs.v is regenerated from the working tree by harness/translate_effects.py on every run:
    when a source change makes a function modify (or possibly modify) caller-owned memory, `pure`
-   evaluates to false on its program and `all_progs_pure` stops compiling. *)
+   evaluates to false on its program and the shard lemma - hence `all_progs_pure` - stops compiling. *)
 From Coq Require Import List Bool Arith.
 From Catii Require Import Effects.IR Effects.Sem Effects.Analysis Effects.Sound Effects.gen.Progs.
+From Catii Require Import Effects.gen.Shard0 Effects.gen.Shard1 Effects.gen.Shard2 Effects.gen.Shard3
+                          Effects.gen.Shard4 Effects.gen.Shard5 Effects.gen.Shard6 Effects.gen.Shard7.
 Import ListNotations.
 
 Lemma all_progs_pure : forallb pure all_progs = true.
-Proof. vm_compute. reflexivity. Qed.
+Proof.
+  unfold all_progs. rewrite !forallb_app.
+  rewrite shard0_pure, shard1_pure, shard2_pure, shard3_pure, shard4_pure, shard5_pure, shard6_pure, shard7_pure.
+  reflexivity.
+Qed.
 
 (* every claimed function, every state the entry description covers, every execution: nothing the
    property protects is modified - version counter and outgoing references of every protected
@@ -32,5 +39,5 @@ Lemma controls_rejected : neg_progs <> [] /\ forallb (fun p => negb (pure p)) ne
 Proof. split; [discriminate|vm_compute; reflexivity]. Qed.
 
 (* the claim is not empty either *)
-Lemma all_progs_nonempty : 100 <= length all_progs.
-Proof. apply Nat.leb_le. vm_compute. reflexivity. Qed.
+Lemma all_progs_many : 100 <=? length all_progs = true.
+Proof. vm_compute. reflexivity. Qed.
